@@ -184,11 +184,25 @@ func verifH_C15_registry() {
 //verif:harness prop=C15 name=count
 //verif:cases quick x=0
 func verifH_C15_count() {
-	names := verifSortedNames()
+	names := append([]string{}, verifSortedNames()...)
 	verifObserve("n", len(names))
 	verifAssert(len(names) == len(knownSuites), "list-has-one-entry-per-registered-suite")
 	verifAssert(!IsKnownSuite(""), "empty-string-not-known")
 	verifAssert(!IsKnownSuite("OCRA-1:HOTP-SHA1-6:QN09"), "unregistered-not-known")
+	// the advertised list is what the registry holds whenever it is asked for: a caller that
+	// filters or edits the list it received does not change what is advertised afterwards
+	l := ListSuites()
+	for i := range l {
+		l[i] = ""
+	}
+	l = append(l[:0], "OCRA-1:HOTP-SHA1-6:QN09")
+	again := verifSortedNames()
+	verifAssert(len(again) == len(names), "list-unaffected-by-edits-of-an-earlier-list")
+	same := len(again) == len(names)
+	for i := 0; same && i < len(names); i++ {
+		same = again[i] == names[i] && IsKnownSuite(again[i])
+	}
+	verifAssert(same, "list-unaffected-by-edits-of-an-earlier-list")
 }
 
 func verifDigitsStr(name string, n int) ([]byte, bool, int) {
